@@ -452,6 +452,21 @@ impl Walk {
                 }
                 self.nontrivial.insert(q.to_string());
             }
+            "@catalog_limit" => {
+                let want = ["over:err", "over-unchanged=true", "over-reopen-unchanged=true", "exact:ok", "exact-listed=true columns=65536",
+                    "tiny:err", "tiny-unchanged=true", "drop:ok", "again:ok", "again-listed=true columns=65536"];
+                if r.contains("panic") {
+                    self.fail(&["C20", "C09"], i, q, r, "a create_table at the row limit of the catalog tables panics".into());
+                } else {
+                    for w in want {
+                        if !r.contains(w) {
+                            self.fail(&["C20", "C04"], i, q, r, format!("at the row limit of `_Columns`/`_Validation`: expected `{w}` (a create_table that does not fit is refused and changes nothing, also after reopening; one that fits exactly is accepted and reopens; a drop frees the room again)"));
+                            break;
+                        }
+                    }
+                }
+                self.nontrivial.insert(q.to_string());
+            }
             "@pool_limit" => {
                 let parts: Vec<&str> = r.split(' ').collect();
                 let oks = parts.iter().filter(|x| **x == "ok").count();
